@@ -53,7 +53,10 @@ func balanceProp(phase, txKind, key string) string {
 		return "C02"
 	case "BeginBlock":
 		if key == ModPool {
-			return "C07"
+			if txKind == "slashes" {
+				return "C07"
+			}
+			return "C04"
 		}
 		return "C10"
 	case "EndBlock":
